@@ -32,7 +32,9 @@ def judge_ancestor(case):
     if res["e"] != "AResult":
         return False, "no result recorded"
     if res.get("err"):
-        return False, "findCommonAncestor failed: %s" % res["err"]
+        return False, ("findCommonAncestor against an honest real Communicator failed (%d attempts%s): %s  [H=%d A=%d R=%d, the "
+                       "search has to return %d]" % (res.get("attempts", 1), ", the peer hung up" if res.get("hungUp") else "",
+                                                     res["err"], st["H"], st["A"], st["R"], st["A"]))
     if res["anc"] != st["A"]:
         return False, "findCommonAncestor returned %d, last common height is %d (H=%d R=%d)" % (res["anc"], st["A"], st["H"], st["R"])
     return True, "ancestor right; probe sequence differs from the algorithm of Sync.tla"
@@ -124,6 +126,9 @@ def judge_sync(case):
     if not e["validBest"] or not e["storeOK"]:
         return False, "after Sync (%s) best/store is not the valid imported prefix" % e["case"]
     if e["prefers"] and not e["converged"]:
+        if e.get("dropped") and not e.get("hostile"):
+            return False, ("the connection to an honest peer with a preferred head was lost during Sync and the node never reached "
+                           "that head (%s, local head %s, remote head %s)" % (e["case"], e.get("H"), e.get("R")))
         if e.get("stalled"):
             return False, ("Sync never adopted the head of a connected peer that its fork choice prefers%s (%s): 20 s = ten sync timer "
                            "ticks after the handshake" % (" (exact total-score tie, smaller id)" if e.get("tie") else "", e["case"]))
@@ -159,6 +164,8 @@ def case_label(case):
 def signature(case, why):
     h = case[0]
     if h["e"] == "AStart":
+        if case[-1].get("err"):
+            return "ancestor-fails:" + ("remote-shorter" if h["R"] < h["H"] else "remote-not-shorter")
         return "ancestor-wrong"
     if case[-1].get("status") == "panic":
         return "panic:handleBlockStream"
@@ -171,6 +178,8 @@ def signature(case, why):
         return "download:%s:%s" % (parts[2].split("@")[0] if len(parts) > 2 else "?", case[-1].get("status"))
     if h["e"] == "Conn" and len(case) > 1:
         return "message:%s:%s" % (case[1].get("code"), case[1].get("cls"))
+    if h.get("dropped") and not h.get("hostile") and h.get("prefers") and not h.get("converged"):
+        return "sync-fails:honest-peer-lost" + (":remote-shorter" if h.get("R", 0) < h.get("H", 0) else "")
     if h.get("tie") and h.get("prefers") and not h.get("converged"):
         return "sync:tie-not-followed"
     return "sync:" + str(h.get("hostile", ""))
